@@ -199,3 +199,20 @@ def b2i_forms(owner, x):
     builtin it wraps."""
     return ['%s.bytes_to_int(%s)' % (owner, x), "int.from_bytes(%s, 'big')" % x, "int.from_bytes(%s, byteorder='big')" % x,
             "%s.bytes_to_int(%s, 'big')" % (owner, x)]
+
+
+UNMODELLED = (r'EACH\(_ in while ', r'loop-rebound\(', r'\.to_bytes\(', r'\.pop\(', r'\breduce\(', r'\bmethodcaller\(', r'\boperator\.\w+\(',
+              r'<raises ', r'\bstruct\.pack\(', r'EACH\((\$[\d.]+) in [^;]*\)(?: if [^;]*)?;\1\)')
+
+
+def unmodelled(text):
+    """The residue the interpreter leaves in a value when the source uses a construct outside its byte-term model (a while loop
+    that drains a list, a fold through functools/operator, pieces yielded by a generator helper, struct packing, an inlined
+    int.to_bytes ...): such a value cannot be compared with a template, and a rule that finds one must answer exit 2
+    (AnalysisError), never "violation".  Returns the marker found, or None."""
+    import re as _re
+    for pat in UNMODELLED:
+        m = _re.search(pat, text or '')
+        if m:
+            return m.group(0)
+    return None
